@@ -59,7 +59,7 @@ Print Assumptions C42_periodic_raise_is_handled.
 
 Theorem C42_periodic_failure_disposes : forall s pid st pi,
   nth_error (pers s) pid = Some pi -> p_disposed pi = false ->
-  match plookup (p_fn pi) st with PNext _ _ => False | _ => True end ->
+  match plookup (p_fn pi) st with PNext _ _ _ => False | _ => True end ->
   In (EPDispose pid) (log (bstate (invoke s (PPer pid st)))).
 Proof. exact periodic_stop_disposes. Qed.
 Print Assumptions C42_periodic_failure_disposes.
@@ -88,7 +88,7 @@ Proof. vm_compute. split; reflexivity. Qed.
 (* periodic: the action raises 1 at its third call; handled, no fourth call *)
 Example C42_witness_periodic :
   observe (run_catch (Cfg Numeric false) 20 hv (init 0)
-             [TDo (SPeriodic 2 ([(0, PNext [] 1); (1, PNext [] 2)], PRaise [] 1) 0); TAdvTo 20])
+             [TDo (SPeriodic 2 ([(0, PNext [] 0%N 1); (1, PNext [] 0%N 2)], PRaise [] 1) 0); TAdvTo 20])
   = [OClock 0; OTick 0 0 2; OTick 0 1 4; OTick 0 2 6; OHandler 1; OClock 20].
 Proof. vm_compute. reflexivity. Qed.
 
